@@ -636,6 +636,17 @@ def definition_identity_findings(F):
         missing = [f for f in want if f not in got]
         _check(not missing and not transformed, "Hash:%s" % an.split("::")[-1], "%s::hash feeds every field (%d) to the hasher as is" % (an.split("::")[-1], len(want)),
                  "the definition hash of %s %s: two pool definitions that differ there compare as unchanged and the old pool is kept after a reload" % (an, ("skips field(s) %s" % missing) if missing else ("hashes a transformed value of %s (e.g. sorted/normalised)" % transformed)))
+    # ... of the section as it is: Pool::hash_value feeds `self` to the hasher, not a copy with parts blanked out
+    hvb = F.body("pgcat::config::Pool::hash_value")
+    if hvb is None:
+        _fail("hash_value:as-is", "config::Pool::hash_value not found")
+    else:
+        hcalls = hvb.calls("re:Hash(<.*>)?>::hash$|^core::hash::Hash::hash$|impl core::hash::Hash for .*>::hash$")
+        pure = bool(hcalls) and all({(o.kind, o.what) for o in origins(hvb, c.args[0]) if o.kind in ("param", "call", "agg")} == {("param", 1)} for c in hcalls)
+        others = sorted({c.name.split("::")[-1] for c in hvb.calls("re:Clone>::clone$|::clone$|mem::(take|replace)$")})
+        _check(pure and not others, "hash_value:as-is", "Pool::hash_value hashes the pool section itself",
+               "Pool::hash_value hashes something else than the section as it is (%s): what the copy leaves out - a shard's mirrors, say - can change in the file without the pool being rebuilt, and the running pool "
+               "keeps the old value for good" % (others or "not `self`"))
     # Config inequality (reload_config's `old_config != new_config`) must look at every field too
     for an in ("pgcat::config::Config", "pgcat::config::General"):
         eb = F.body("<%s as core::cmp::PartialEq>::eq" % an)
@@ -848,4 +859,68 @@ def recv_handout_findings(F):
                      "recv can return before ReadyForQuery from a place that is not tied to DataRow/Copy messages (bb%s): with data_available still false the caller stops reading and the client gets a truncated reply without ReadyForQuery" % badx[:3])
         others = sorted({b_.name for b_, blk, st in F.field_writes(lambda f, b_, st: f == "data_available") if b_.name != RECV})
         _chk(not others, "flag-writers", "only Server::recv writes data_available", "data_available written by %s" % others)
+    return out
+
+
+def explicit_role_kept_findings(F):
+    """`SET SERVER ROLE TO 'primary'|'replica'|'any'` switches the session's parser off (query_parser_enabled() == false); that switch is what keeps the
+    per-statement inference from overwriting the role (and the shard selection) the client asked for. Every routing inference of the idle loop of
+    Client::handle is reached only over the true edge of query_parser_enabled() - statement_parsing_enabled() is also true when only the plugins want
+    the AST. Returns [(key, ok, okmsg, failmsg, where, witness)] or None when the anchors are missing."""
+    H = "pgcat::client::Client::handle::{closure#0}"
+    INFER = "pgcat::query_router::QueryRouter::infer"
+    h = F.body(H)
+    if h is None:
+        return None
+    infer_like = [INFER]
+    for n_, b_ in F.bodies.items():
+        if n_.startswith("pgcat::query_router::QueryRouter::") and "::{" not in n_ and n_ != INFER:
+            ic = b_.calls(INFER)
+            rets = [bb for bb, blk in enumerate(b_.blocks) if blk["term"]["k"] == "return"]
+            if ic and b_.uncrossed_path([0], rets, blocks=[c.block for c in ic]) is None:
+                infer_like.append(n_)
+    claim = h.calls("pgcat::server::Server::claim")
+    if not claim:
+        return None
+    hsw = switches(h)
+    qpe_true, _, _ = call_bool_edges(h, "pgcat::query_router::QueryRouter::query_parser_enabled", switches_cache=hsw)
+    pre_inf = [c for c in h.calls(*infer_like) if not h.dominates(claim[0].block, c.block)]
+    rd_t = [c.target for c in h.calls("pgcat::messages::read_message") if not h.dominates(claim[0].block, c.block) and c.target is not None]
+    out = [("inference-sites", len(pre_inf) >= 3, "%d routing inferences before the checkout (Q, P and B arms)" % len(pre_inf), "expected the routing inferences of the Q, P and B arms before the checkout, found %d" % len(pre_inf), "", None)]
+    for c in pre_inf:
+        wit = h.uncrossed_path(rd_t, [c.block], edges=qpe_true)
+        out.append(("explicit-role-kept@%s#%d" % (c.name.split("::")[-1], pre_inf.index(c)), bool(qpe_true) and wit is None,
+                    "%s runs only where query_parser_enabled() answered true (a session that set its role explicitly is not re-inferred)" % c.name.split("::")[-1],
+                    "%s can run although the session switched the parser off with SET SERVER ROLE (e.g. when only the plugins ask for the AST): the role the client set explicitly is overwritten by the inferred one, "
+                    "and stays overwritten" % c.name.split("::")[-1], c.where(), wit and h.describe_path(wit)))
+    return out
+
+
+def bind_rename_findings(F):
+    """The one rewrite pgcat makes in a Bind is the statement name. Bind::rename patches the raw message: it reads the two names, writes the portal and the new
+    name, and appends the rest of the client's bytes from the cursor position on, untouched - parameter formats, values (NULLs as -1) and result formats never go
+    through a decoder and an encoder that could disagree. Returns [(key, ok|None, okmsg, failmsg)]"""
+    br = F.body("pgcat::messages::Bind::rename")
+    if br is None:
+        return [("Bind::rename", None, "", "messages::Bind::rename")]
+    out = []
+    ps = br.calls("re:put_slice$")
+    verbatim = False
+    for c in ps:
+        thr = []
+        os_ = origins(br, c.args[1], through=thr)
+        from_buf = any(o.kind == "param" and o.what == 1 for o in os_)
+        for ic in thr:
+            if re.search(r"Index<.*::index$", ic.name) and len(ic.args) > 1:
+                idx_src = {o.call.name.split("::")[-1] for o in origins(br, ic.args[1], taint=True) if o.kind == "call"}
+                if from_buf and "position" in idx_src:
+                    verbatim = True
+    out.append(("Bind::rename:remainder", verbatim, "Bind::rename appends buf[cursor.position()..] of the original message",
+                "Bind::rename no longer copies the remainder of the original Bind verbatim: everything behind the statement name goes through a decoder and an encoder - the struct encoder measures a NULL parameter "
+                "(length -1) as -1 bytes, the rewritten Bind announces a length one short per NULL and the server mis-frames the batch"))
+    lens = set()
+    for blk, i, st in br.assigns():
+        if st["rv"]["k"] == "bin" and st["rv"]["op"] in ("Add", "Sub", "AddWithOverflow", "SubWithOverflow"):
+            lens.add(st["rv"]["op"].replace("WithOverflow", ""))
+    out.append(("Bind::rename:length", {"Add", "Sub"} <= lens, "the new length is derived from the old one by adding/subtracting the name lengths", "Bind::rename length arithmetic changed: %s" % sorted(lens)))
     return out
